@@ -9,6 +9,11 @@
  *   crashfs_set_log(path)             append "k op path size" lines there (outside the root)
  *   crashfs_arm(mode, k, err, sticky) mode 0 = count only, 1 = crash before op k,
  *                                     2 = op k fails with errno err (sticky: and all later ones)
+ *                                     3 = count READ operations (read/pread/readv/mmap of files
+ *                                         below the root) instead of mutating ones
+ *                                     4 = read operation k fails with errno err
+ *                                     (stdio fread is not covered: glibc reads through an internal
+ *                                     call that cannot be interposed)
  *   crashfs_disarm()                  stop counting
  *   crashfs_count()                   number of counted operations so far
  *
@@ -23,6 +28,7 @@
 #include <stdio.h>
 #include <stdlib.h>
 #include <string.h>
+#include <sys/mman.h>
 #include <sys/stat.h>
 #include <sys/types.h>
 #include <sys/uio.h>
@@ -132,7 +138,7 @@ static int hit(const char *op, const char *path, long size) {
     int fail = 0;
     if (g_mode == 1 && n == g_k) {
         _exit(137);
-    } else if (g_mode == 2 && (n == g_k || (g_sticky && n > g_k))) {
+    } else if ((g_mode == 2 || g_mode == 4) && (n == g_k || (g_sticky && n > g_k))) {
         fail = 1;
     }
     g_busy = 0;
@@ -142,15 +148,25 @@ static int hit(const char *op, const char *path, long size) {
 
 static int check_path_at(const char *op, int dirfd, const char *path, long size) {
     char abs[PATH_MAX];
-    if (!g_active || g_busy || !g_rootlen) return 0;
+    if (!g_active || g_busy || !g_rootlen || g_mode >= 3) return 0;
     if (!resolve_at(dirfd, path, abs)) return 0;
+    if (!under_root(abs)) return 0;
+    return hit(op, abs, size);
+}
+
+static int check_fd_read(const char *op, int fd, long size) {
+    char abs[PATH_MAX];
+    struct stat st;
+    if (!g_active || g_busy || !g_rootlen || g_mode < 3 || fd < 0) return 0;
+    if (fstat(fd, &st) != 0 || !S_ISREG(st.st_mode)) return 0;
+    if (!fd_path(fd, abs)) return 0;
     if (!under_root(abs)) return 0;
     return hit(op, abs, size);
 }
 
 static int check_fd(const char *op, int fd, long size) {
     char abs[PATH_MAX];
-    if (!g_active || g_busy || !g_rootlen) return 0;
+    if (!g_active || g_busy || !g_rootlen || g_mode >= 3) return 0;
     if (!fd_writable(fd)) return 0;
     if (!fd_path(fd, abs)) return 0;
     if (!under_root(abs)) return 0;
@@ -210,6 +226,38 @@ FILE *fopen64(const char *path, const char *mode) {
     REAL(fopen64);
     if (fopen_mutates(mode) && check_path_at("fopen", AT_FDCWD, path, 0)) return NULL;
     return real_fopen64(path, mode);
+}
+
+/* ------------------------------------------------------------------ read */
+ssize_t read(int fd, void *buf, size_t n) {
+    REAL(read);
+    if (check_fd_read("read", fd, (long)n)) return -1;
+    return real_read(fd, buf, n);
+}
+ssize_t pread(int fd, void *buf, size_t n, off_t off) {
+    REAL(pread);
+    if (check_fd_read("pread", fd, (long)n)) return -1;
+    return real_pread(fd, buf, n, off);
+}
+ssize_t pread64(int fd, void *buf, size_t n, off64_t off) {
+    REAL(pread64);
+    if (check_fd_read("pread", fd, (long)n)) return -1;
+    return real_pread64(fd, buf, n, off);
+}
+ssize_t readv(int fd, const struct iovec *iov, int cnt) {
+    REAL(readv);
+    if (check_fd_read("readv", fd, (long)cnt)) return -1;
+    return real_readv(fd, iov, cnt);
+}
+void *mmap(void *addr, size_t len, int prot, int flags, int fd, off_t off) {
+    REAL(mmap);
+    if (fd >= 0 && check_fd_read("mmap", fd, (long)len)) return MAP_FAILED;
+    return real_mmap(addr, len, prot, flags, fd, off);
+}
+void *mmap64(void *addr, size_t len, int prot, int flags, int fd, off64_t off) {
+    REAL(mmap64);
+    if (fd >= 0 && check_fd_read("mmap", fd, (long)len)) return MAP_FAILED;
+    return real_mmap64(addr, len, prot, flags, fd, off);
 }
 
 /* ----------------------------------------------------------------- write */
